@@ -34,7 +34,12 @@ def shape_signature(case):
             if "bytes" in p:
                 pend = "bytes"
             else:
-                last = [ln for ln in p["lines"] if "raw" not in ln][-1]
+                tl = p["lines"]
+                for k, ln in enumerate(tl):
+                    if "sec" in ln:
+                        tl = tl[:k]
+                        break
+                last = [ln for ln in tl if "raw" not in ln][-1]
                 pend = "label" if "l" in last else (
                     "bytes" if last.get("k") == "bytes" else
                     vocab.VOCAB[isa][last["k"]]["kind"])
